@@ -621,3 +621,74 @@ theorem gzip_close_stream (O : InnerOps ι) {mode : Mode} (C : InnerStream O mod
   exact ⟨c1, b, st, rest, c3, hinf, hl⟩
 
 end Fastgo.CWriter
+
+/-! ### sticky errors and idempotent Close of the container Writers -/
+
+namespace Fastgo.CWriter
+open Fastgo.Spec Fastgo.Writer Fastgo.Container
+variable {ι : Type}
+
+/-- gzip: once an error is stored every call returns it and touches nothing -/
+theorem gzip_sticky (O : InnerOps ι) (z : GW ι) (e : Err) (he : z.err = some e) :
+    (∀ p, gWrite O z p = (z, { n := 0, err := some e })) ∧ gFlush O z = (z, { err := some e }) ∧
+    gClose O z = (z, { err := some e }) := by
+  refine ⟨fun p => ?_, ?_, ?_⟩
+  · unfold gWrite; rw [he]
+  · unfold gFlush; rw [he]
+  · unfold gClose; rw [he]
+
+/-- gzip: after a successful Close, Close and Flush return nil and touch nothing -/
+theorem gzip_closed_idempotent (O : InnerOps ι) (z : GW ι) (he : z.err = none) (hc : z.closed = true) :
+    gClose O z = (z, {}) ∧ gFlush O z = (z, {}) := by
+  refine ⟨?_, ?_⟩
+  · unfold gClose; rw [he]; simp [hc]
+  · unfold gFlush; rw [he]; simp [hc]
+
+/-- zlib: a stored error implies the header step has been taken (it is the only thing that runs before the check) -/
+def ZErrInv (z : ZW ι) : Prop := z.err ≠ none → z.wroteHeader = true
+
+theorem zHeader_noop (O : InnerOps ι) (z : ZW ι) (hw : z.wroteHeader = true) : zHeader O z = z := by
+  unfold zHeader; rw [if_pos hw]
+
+/-- zlib: once an error is stored every call returns it and touches nothing -/
+theorem zlib_sticky (O : InnerOps ι) (z : ZW ι) (e : Err) (he : z.err = some e) (hi : ZErrInv z) :
+    (∀ p, zWrite O z p = (z, { n := 0, err := some e })) ∧ zFlush O z = (z, { err := some e }) ∧
+    zClose O z = (z, { err := some e }) := by
+  have hw : z.wroteHeader = true := hi (by rw [he]; simp)
+  refine ⟨fun p => ?_, ?_, ?_⟩
+  · unfold zWrite; rw [zHeader_noop O z hw]; unfold zWrite1; rw [he]
+  · unfold zFlush; rw [zHeader_noop O z hw]; unfold zFlush1; rw [he]
+  · unfold zClose; rw [zHeader_noop O z hw]; unfold zClose1; rw [he]
+
+/-- the header step establishes the invariant, and every operation keeps it -/
+theorem zHeader_errInv (O : InnerOps ι) (z : ZW ι) : (zHeader O z).wroteHeader = true := by
+  unfold zHeader
+  by_cases hw : z.wroteHeader = true
+  · rw [if_pos hw]; exact hw
+  · rw [if_neg hw]
+    split <;> rfl
+
+theorem zStep_errInv (O : InnerOps ι) (z : ZW ι) (op : Op) : ZErrInv (zStep O z op).1 := by
+  have hwf : ∀ z1 : ZW ι, z1.wroteHeader = true →
+      (∀ p, (zWrite1 O z1 p).1.wroteHeader = true) ∧ (zFlush1 O z1).1.wroteHeader = true ∧ (zClose1 O z1).1.wroteHeader = true := by
+    intro z1 h1
+    refine ⟨fun p => ?_, ?_, ?_⟩
+    · unfold zWrite1; repeat' split
+      all_goals exact h1
+    · unfold zFlush1; repeat' split
+      all_goals exact h1
+    · unfold zClose1; repeat' split
+      all_goals exact h1
+  obtain ⟨w1, w2, w3⟩ := hwf (zHeader O z) (zHeader_errInv O z)
+  cases op with
+  | write p => exact fun _ => w1 p
+  | flush => exact fun _ => w2
+  | close => exact fun _ => w3
+  | reset d => intro h; exact absurd rfl h
+
+/-- zlib: after a successful Close, Close returns nil and touches nothing -/
+theorem zlib_closed_idempotent (O : InnerOps ι) (z : ZW ι) (he : z.err = none) (hc : z.closed = true)
+    (hw : z.wroteHeader = true) : zClose O z = (z, {}) := by
+  unfold zClose; rw [zHeader_noop O z hw]; unfold zClose1; rw [he]; simp [hc]
+
+end Fastgo.CWriter
